@@ -326,12 +326,54 @@ def r10e(ctx, rep):
     rep.floor('R10e', 'wholesale log replacements that persist entries', n, 1)
 
 
+def r10f(ctx, rep):
+    rep.rule('R10f', 'a truncation is logged by log index: wherever RaftNode::append_leader_entries records that it cuts its log (the argument of '
+                     'persist_log_truncate, or the from_index of an inline RaftWalEntry::LogTruncate), the value derives from LogEntry.index '
+                     'of the conflicting entry and not from a position in the in-memory vector (the result of log_index_to_array_index). '
+                     'The two differ by log_base_index once the follower has compacted its log; replay then cuts `base` acknowledged entries '
+                     'too many')
+    cr = ctx.crate('tensor_chain')
+    f = rep.require_fn('R10f', cr, 'tensor_chain::raft::RaftNode::append_leader_entries')
+    if f is None:
+        return
+    defs = A.Defs(f)
+    vals = []
+    for c in A.calls_to(f, ('re', r'RaftNode::persist_log_truncate$')):
+        if len(c.args) > 1:
+            vals.append((c.args[1], c.line))
+    for i, b in enumerate(f.bbs):
+        if b['cleanup']:
+            continue
+        for st in b['s']:
+            rv = st[1]
+            if rv[0] == 'agg' and rv[1].endswith('RaftWalEntry::LogTruncate') and rv[2]:
+                vals.append((rv[2][0], st[2]))
+    if not rep.floor('R10f', 'logged truncation points in append_leader_entries', len(vals), 1):
+        return
+    rep.analysed(f)
+    for k, (op, line) in enumerate(vals):
+        if op[0] == 'k':
+            rep.violation('R10f', f, 'truncate-index-constant', f.loc(line), 'the logged truncation index is a constant')
+            continue
+        sl = A.backward_slice(f, [op], defs)
+        from_index = any(x.endswith('LogEntry.index') for x in sl.fields)
+        from_pos = sorted(lib.short(x) for x in sl.calls if re.search(r'log_index_to_array_index$|::len$|::position$', x))
+        if from_index and not from_pos:
+            rep.holds('R10f', f, 'truncate#%d' % k, 'LogEntry.index of the conflicting entry')
+        else:
+            rep.violation('R10f', f, 'truncate-by-array-position', f.loc(line),
+                          'the truncation point written to the WAL is computed from %s, a position in the in-memory vector, not from the '
+                          'entry\'s log index: after log compaction (log_base_index > 0) replay truncates earlier than memory did' %
+                          (', '.join(from_pos) or 'something other than LogEntry.index'))
+
+
 def run(ctx, rep):
     raft_rules.r01a(ctx, rep)
     r10a(ctx, rep)
     r10c(ctx, rep)
     r10d(ctx, rep)
     r10e(ctx, rep)
+    r10f(ctx, rep)
     wal_rules.r02b(ctx, rep, ['RaftWal'])
     wal_rules.r02e(ctx, rep, ['RaftWal'])
     wal_rules.r02f(ctx, rep, ['RaftWal'])
